@@ -117,6 +117,7 @@ ASSUMPTIONS = [
     'EXCEPT for a collection derived by choosing packages (filter_packages*, filter_packages_tags*, choose_packages*): its tags '
     'are exactly the tags of the chosen pairs - a tag none of the kept packages carries is not a tag of the result (the '
     'statement: tag counts agree with a relation holding the same pairs; nothing upstream can justify such a key there)',
+    'insert(p, tags) names a package: directly afterwards has_package(p) holds and iter_packages() lists p, with or without tags',
     'a read line with a stray separator ("p: a, , b", "p: , a") carries the EMPTY tag name, a name like any other; as a package '
     'name (after reverse) it meets the known insert defect the same way longer names do (set(("")) is empty)',
     'facet of a tag "f::x" is "f" (independent rule); the facet NAME the library gives a tag without "::" is not part of '
@@ -730,6 +731,17 @@ def run_case(ctx, case):
                 cur.insert(ins_pkg, set(op['tags']))
                 nmodel = model.insert(ins_pkg, op['tags'])
                 nxt = cur
+                # the operation NAMES a package: right after it, the collection has that package - also when it came
+                # without tags (what later derivations do with tag-less packages stays open, see ASSUMPTIONS)
+                ctx.mon('M.insert-post')
+                if not op['tags']:
+                    ctx.count('insert:without-tags')
+                hp = cur.has_package(ins_pkg)
+                if not hp or ins_pkg not in set(cur.iter_packages()):
+                    ctx.violation('inserted-package-not-in-collection',
+                                  'insert(%r, %r): has_package = %r, iter_packages() %s it, package_count() = %r'
+                                  % (ins_pkg, sorted(op['tags']), hp, 'lists' if ins_pkg in set(cur.iter_packages()) else 'does not list',
+                                     cur.package_count()), prefix(i))
             elif kind == 'read':
                 form = op.get('form', 'iter')
                 ents = op['entries']
@@ -1787,7 +1799,7 @@ _OPS_Q = {'dpair:formed/choose_packages/keeps-everything': 250, 'dpair:formed/ch
           'pair:op:query': 7000, 'pair:op:read': 2800, 'pair:op:reverse_view': 18000, 'q:absent-name-queries': 207500,
           'q:present-name-queries': 31000, 'q:with-live-derived-partner': 2100, 'q:with-live-partner': 7000,
           'view-start:both-empty': 4300, 'view-start:general': 7200, 'view-start:no-packages': 1500,
-          'view-start:no-tags': 2100, 'view-start:single-package': 2700, 'read:line-with-empty-tag-name': 5500}
+          'view-start:no-tags': 2100, 'view-start:single-package': 2700, 'read:line-with-empty-tag-name': 5500, 'insert:without-tags': 12000}
 _OPS_T = dict((k, v * 40) for k, v in _OPS_Q.items())
 FLOORS = {'quick': {'nontrivial': 19500, 'monitors': {'M': 210000, 'M.pair': 50000, 'M.dpair': 22000, 'M.query': 310000},
                     'counters': _OPS_Q},
